@@ -91,7 +91,24 @@ def vary(case, rng, k):
         case["no_addr"] = True
     if k % 7 == 2:
         return three_callers(rng)
+    if k % 11 == 3:
+        return empty_neighbour(rng)
     return case
+
+
+def empty_neighbour(rng):
+    """the module already holds a zero-sized code block (left behind by an earlier rewrite) at the address of the
+    next block; the block behind it is edited or deleted"""
+    text = [
+        {"kind": "code", "func": 0, "entry": True, "insns": [["nop"], ["jmp", "c"]], "syms": [{"name": "f", "at_end": False}]},
+        {"kind": "code", "func": 1, "entry": True, "insns": [], "syms": [{"name": "z", "at_end": False}]},
+        {"kind": "code", "func": 1, "insns": [["nop"]] * rng.randint(1, 2) + [["jmp", "c"]], "syms": [{"name": "b", "at_end": False}]},
+        {"kind": "code", "func": 2, "entry": True, "insns": [["nop"], ["ret"]], "syms": [{"name": "c", "at_end": False}]},
+    ]
+    size = emodify.block_size(text[2])
+    e = rng.choice([{"op": "delete", "block": 2, "off": 0, "len": size}, {"op": "delete", "block": 2, "off": 0, "len": 1},
+                    {"op": "insert", "block": 2, "off": 0, "asm": "nop"}, {"op": "delete", "block": 2, "off": 0, "len": size, "proxy": True}])
+    return {"isa": "X64", "ff": "ELF", "text": text, "externs": ["ext_a"], "edits": [e]}
 
 
 def three_callers(rng):
